@@ -61,8 +61,9 @@ Reset == /\ Is("reset")
 Core(t) == [b |-> t.b, e |-> t.e, lt |-> t.lt, id |-> t.id, l |-> t.l, r |-> t.r, c |-> t.c, tot |-> t.tot]
 CoreSeq(toks) == [i \in 1..Len(toks) |-> Core(toks[i])]
 
+IdsSane(toks) == \A i \in 1..Len(toks) : 0 <= toks[i].l /\ toks[i].l < dict.nl /\ 0 <= toks[i].r /\ toks[i].r < dict.nr
 RangesSane(s, toks) == /\ \A i \in 1..Len(toks) : 0 <= toks[i].b /\ toks[i].b < toks[i].e /\ toks[i].e <= Len(s)
-                       /\ \A i \in 1..Len(toks) : 0 <= toks[i].l /\ toks[i].l < dict.nl /\ 0 <= toks[i].r /\ toks[i].r < dict.nr
+                       /\ IdsSane(toks)
                        /\ \A i \in 1..(Len(toks) - 1) : toks[i].e <= toks[i + 1].b
 
 Tok == /\ Is("tok")
@@ -75,10 +76,12 @@ Tok == /\ Is("tok")
           (* the remaining clauses index the sentence by the reported positions: they are evaluated
              only for reports whose ranges lie inside the sentence in ascending order (anything
              else is already a violation of C01's clause above) *)
+          (* the cost clauses need nothing but connection ids inside the connector *)
+          /\ (Len(s) > 0 /\ IdsSane(toks) =>
+                AT("C02", "prefix-cost+optimal", /\ PrefixCostOK(dict, toks)
+                            /\ ChainTotal(dict, toks) = OptCost(dict, opts, s, T)))
           /\ (Len(s) > 0 /\ RangesSane(s, toks) =>
                 /\ AT("C03", "tokens-are-candidates", ChainOK(dict, opts, s, T, toks, 1, 0, 0))
-                /\ AT("C02", "prefix-cost+optimal", /\ PrefixCostOK(dict, toks)
-                            /\ ChainTotal(dict, toks) = OptCost(dict, opts, s, T))
                 /\ ("lat" \in DOMAIN E =>
                       LET chk == LatticeCheck(dict, opts, s, T, E.lat) IN
                       /\ AT("C03", "lattice-candidate-bags", chk.cands)
